@@ -154,14 +154,41 @@ class FalsyStream(Stream):
         return False
 
 
+class PoolStream(Stream):
+    """Serves WRITABLE views into a pool the caller keeps (a replayable entropy pool): the library may read them, the pool
+    stays the caller's - checked at the end of the shard (gen.audit_issued) and on every later request."""
+
+    def __init__(self, data):
+        Stream.__init__(self, data)
+        self.pool = bytearray(self.data)
+        from vf import gen as _gen
+        if len(_gen._ISSUED) < 60000:
+            _gen._ISSUED.append(("entropy_pool_bytearray", self.pool, self.data))
+
+    def __call__(self, nbytes):
+        if self.pos + nbytes > len(self.data):
+            raise StreamExhausted()
+        if bytes(self.pool[: self.pos]) != self.data[: self.pos]:
+            raise PoolOverwritten("bytes [0,%d) of the caller's entropy pool were overwritten by the library" % self.pos)
+        out = memoryview(self.pool)[self.pos: self.pos + nbytes]
+        self.log.append((nbytes, bytes(out)))
+        self.pos += nbytes
+        return out
+
+
+class PoolOverwritten(Exception):
+    pass
+
+
 _VARIANT = {"i": 0}
 
 
 def entropy_stream(data):
-    """A recording stream; every third one is an object that is falsy (a legal callable all the same)."""
+    """A recording stream; some are objects that are falsy (legal callables all the same), every fourth serves writable views
+    into a pool it keeps."""
     _VARIANT["i"] += 1
-    v = _VARIANT["i"] % 3
-    return (Stream, LenStream, FalsyStream)[v](data)
+    v = _VARIANT["i"] % 4
+    return (Stream, LenStream, FalsyStream, PoolStream)[v](data)
 
 
 class StreamExhausted(Exception):
